@@ -197,14 +197,19 @@ class GradientMethod(Alg):
             if self.proxg is not None:
                 backend.copyto(self.x, self.proxg(self.alpha, self.x))
 
+            self.resid = xp.linalg.norm(self.x - x_old).item() / self.alpha
             if self.accelerate:
+                # the step was taken from z, so also measure the move from z
+                self.resid = (
+                    self.resid**2
+                    + (xp.linalg.norm(self.x - self.z).item() / self.alpha)
+                    ** 2
+                ) ** 0.5
                 t_old = self.t
                 self.t = (1 + (1 + 4 * t_old**2) ** 0.5) / 2
                 backend.copyto(
                     self.z, self.x + ((t_old - 1) / self.t) * (self.x - x_old)
                 )
-
-            self.resid = xp.linalg.norm(self.x - x_old).item() / self.alpha
 
     def _done(self):
         return (self.iter >= self.max_iter) or self.resid <= self.tol
